@@ -215,4 +215,205 @@ theorem refLoop_sound (cs : List Container) (rf : List PkgRef) (root : Nat) (kr 
         refine ⟨h1, h2, ?_⟩
         cases s <;> simp_all
 
+
+/-- the statement after the two navigations: `if root in [ep_pkg, c_c] … elif … elif …` -/
+def cicIf : Stmt :=
+  .ite (.among "root" ["ep_pkg", "c_c"]) [.ret (.bool true)]
+    [.ite (.truthy (.call "is_contained_in" ["ep_pkg", "root"])) [.ret (.bool true)]
+      [.ite (.truthy (.call "is_contained_in" ["c_c", "root"])) [.ret (.bool true)] []]]
+
+theorem is_contained_in_split : is_contained_in.body.drop 2 =
+    [ .assign "ep_pkg" (.nav { card := .one, start := "pe_pe", hops := [{ cls := "EP_PKG", rel := 8000, phrase := "" }], filter := .all }),
+      .assign "c_c" (.nav { card := .one, start := "pe_pe", hops := [{ cls := "C_C", rel := 8003, phrase := "" }], filter := .all }),
+      cicIf ] ++ cicTail := rfl
+
+theorem call_cases {cs : List Container} {rf : List PkgRef} {root : Nat} {kr : Container} {cf : CallF SI} {f : Nat}
+    (hs : SoundF cs rf root kr cf f) (xo : Option SI) (L : Loc SI) (C : Calls SI) :
+    (∃ e, cf "is_contained_in" [.inst xo, .inst (some (SI.comp kr))] L C = .error e) ∨
+      cf "is_contained_in" [.inst xo, .inst (some (SI.comp kr))] L C = .ok (.bool (cont cs rf root f xo), C) := by
+  rcases h : cf "is_contained_in" [.inst xo, .inst (some (SI.comp kr))] L C with e | ⟨v, C'⟩
+  · exact .inl ⟨e, rfl⟩
+  · obtain ⟨hv, hC⟩ := hs _ _ _ _ _ h
+    subst hv hC
+    exact .inr rfl
+
+/-- `if root in [ep_pkg, c_c]: … elif is_contained_in(ep_pkg, root): … elif is_contained_in(c_c, root): …` -/
+theorem cicIf_sound (cs : List Container) (rf : List PkgRef) (root : Nat) (kr : Container) (cf : CallF SI) (f fuel : Nat)
+    (hs : SoundF cs rf root kr cf f) (epo cco : Option SI) (L : Loc SI) (C : Calls SI)
+    (h1 : L "ep_pkg" = .inst epo) (h2 : L "c_c" = .inst cco) (h3 : L "root" = .inst (some (SI.comp kr))) :
+    (∃ e, iStmt (scopeWorld cs rf) cf fuel cicIf L C = .error e) ∨
+    (iStmt (scopeWorld cs rf) cf fuel cicIf L C = .ok (L, C, .ret (.bool true)) ∧
+      (decide (some (SI.comp kr) = epo) || decide (some (SI.comp kr) = cco) || cont cs rf root f epo || cont cs rf root f cco) = true) ∨
+    (iStmt (scopeWorld cs rf) cf fuel cicIf L C = .ok (L, C, .next) ∧
+      (decide (some (SI.comp kr) = epo) || decide (some (SI.comp kr) = cco) || cont cs rf root f epo || cont cs rf root f cco) = false) := by
+  by_cases hA : some (SI.comp kr) = epo ∨ some (SI.comp kr) = cco
+  · right; left
+    rcases hA with hA | hA <;> xsS [cicIf, h1, h2, h3, hA] <;> simp [← hA]
+  · have hA1 : ¬ some (SI.comp kr) = epo := fun h => hA (.inl h)
+    have hA2 : ¬ some (SI.comp kr) = cco := fun h => hA (.inr h)
+    rcases call_cases hs epo L C with ⟨e, hc1⟩ | hc1
+    · left; exact ⟨e, by xsS [cicIf, h1, h2, h3, hA1, hA2, hc1]⟩
+    · cases hb1 : cont cs rf root f epo with
+      | true => right; left; xsS [cicIf, h1, h2, h3, hA1, hA2, hc1, hb1]
+      | false =>
+        rcases call_cases hs cco L C with ⟨e, hc2⟩ | hc2
+        · left; exact ⟨e, by xsS [cicIf, h1, h2, h3, hA1, hA2, hc1, hb1, hc2]⟩
+        · cases hb2 : cont cs rf root f cco with
+          | true => right; left; xsS [cicIf, h1, h2, h3, hA1, hA2, hc1, hb1, hc2, hb2]
+          | false => right; right; xsS [cicIf, h1, h2, h3, hA1, hA2, hc1, hb1, hc2, hb2]
+
+
+def refNav : Nav :=
+  { card := .many, start := "ep_pkg", hops := [{ cls := "EP_PKG", rel := 1402, phrase := "is referenced by" }], filter := .all }
+
+theorem eNav_refs1402 (cs : List Container) (rf : List PkgRef) (L : Loc SI) (k : Container)
+    (h1 : L "ep_pkg" = .inst (some (SI.pkg k))) :
+    eNav (scopeWorld cs rf) L refNav = .ok (.insts ((referrers cs rf k.id).map SI.pkg)) := by
+  simp [eNav, refNav, h1, startSet, evalHops, scopeHop, hp, referrers, List.map_filterMap]
+
+theorem eNav_refs1402_none (cs : List Container) (rf : List PkgRef) (L : Loc SI) (h1 : L "ep_pkg" = .inst none) :
+    eNav (scopeWorld cs rf) L refNav = .ok (.insts []) := by
+  simp [eNav, refNav, h1, startSet, evalHops]
+
+/-- the loop over the referring packages and the final `return False` -/
+theorem cicTail_sound (cs : List Container) (rf : List PkgRef) (root : Nat) (kr : Container) (cf : CallF SI) (f fuel : Nat)
+    (hs : SoundF cs rf root kr cf f) (epk : Option Container) (L : Loc SI) (C : Calls SI)
+    (h1 : L "ep_pkg" = .inst (epk.map SI.pkg)) (h3 : L "root" = .inst (some (SI.comp kr))) (v : Val SI) (C' : Calls SI)
+    (h : retOf (iStmts (scopeWorld cs rf) cf fuel cicTail L C) = .ok (v, C')) :
+    v = .bool (match epk with
+      | some k => (referrers cs rf k.id).any (fun kq => containedFuel cs rf root f kq.parent)
+      | none => false) ∧ C' = C := by
+  have hT : cicTail = [.forNav "ep_pkg" refNav refLoopBody, .ret (.bool false)] := rfl
+  rw [hT] at h
+  cases epk with
+  | none =>
+    simp only [Option.map_none] at h1
+    simp only [iStmts, iStmt, eNav_refs1402_none cs rf L h1, forLoop, thenStep, eExpr, retOf] at h
+    simp at h
+    simp [h]
+  | some k =>
+    simp only [Option.map_some] at h1
+    simp only [iStmts, iStmt, eNav_refs1402 cs rf L k h1] at h
+    generalize hl : forLoop _ ((referrers cs rf k.id).map SI.pkg) L C = r at h
+    rcases r with e | ⟨L1, C1, s⟩
+    · simp [thenStep, retOf] at h
+    · obtain ⟨hC, _, hv⟩ := refLoop_sound cs rf root kr cf f fuel hs _ L C L1 C1 s h3 hl
+      subst hC
+      cases s with
+      | ret w =>
+        obtain ⟨hw, hany⟩ := hv
+        subst hw
+        simp [thenStep, retOf] at h
+        simp [h, hany]
+      | next =>
+        simp [thenStep, retOf, iStmts, iStmt, eExpr] at h
+        simp [h, hv]
+      | cont => exact hv.elim
+
+
+theorem cic_key (cs : List Container) (rf : List PkgRef) (root : Nat) (kr : Container)
+    (hkr : findContainer cs true root = some kr) (cf : CallF SI) (f fuel : Nat) (hs : SoundF cs rf root kr cf f)
+    (p : Parent) (L0 : Loc SI) (C : Calls SI) (v : Val SI) (C' : Calls SI)
+    (hL0 : L0 "pe_pe" = .inst (some (SI.pe p))) (hR : L0 "root" = .inst (some (SI.comp kr)))
+    (hrun : retOf (iStmts (scopeWorld cs rf) cf fuel (is_contained_in.body.drop 2) L0 C) = .ok (v, C')) :
+    v = .bool (containedFuel cs rf root (f + 1) p) ∧ C' = C := by
+  rw [is_contained_in_split, iStmts_append] at hrun
+  -- ep_pkg and c_c as the two navigations find them
+  obtain ⟨epk, cco, hnav, hmodel⟩ : ∃ (epk : Option Container) (cco : Option SI),
+      (iStmts (scopeWorld cs rf) cf fuel
+        [ .assign "ep_pkg" (.nav { card := .one, start := "pe_pe", hops := [{ cls := "EP_PKG", rel := 8000, phrase := "" }], filter := .all }),
+          .assign "c_c" (.nav { card := .one, start := "pe_pe", hops := [{ cls := "C_C", rel := 8003, phrase := "" }], filter := .all }),
+          cicIf ] L0 C =
+        thenStep (iStmt (scopeWorld cs rf) cf fuel cicIf ((L0.set "ep_pkg" (.inst (epk.map SI.pkg))).set "c_c" (.inst cco)) C)
+          (iStmts (scopeWorld cs rf) cf fuel [])) ∧
+      containedFuel cs rf root (f + 1) p =
+        (decide (some (SI.comp kr) = epk.map SI.pkg) || decide (some (SI.comp kr) = cco) || cont cs rf root f (epk.map SI.pkg) ||
+          cont cs rf root f cco ||
+          (match epk with
+           | some k => (referrers cs rf k.id).any (fun kq => containedFuel cs rf root f kq.parent)
+           | none => false)) := by
+    cases p with
+    | none => exact ⟨none, none, by xsS [hL0], by simp [containedFuel, cont, parentOf]⟩
+    | pkg i =>
+      cases hc : findContainer cs false i with
+      | none => exact ⟨none, none, by xsS [hL0, hc], by simp [containedFuel, cont, parentOf, hc]⟩
+      | some k =>
+        refine ⟨some k, none, by xsS [hL0, hc], ?_⟩
+        have hid := (findContainer_spec hc).2.2
+        subst hid
+        simp only [containedFuel, hc, cont, parentOf, any_referrers, Option.map_some]
+        simp
+        first
+          | rfl
+          | (congr 1; congr 1; funext r; cases findContainer cs false r.referring <;> rfl)
+    | comp c =>
+      cases hc : findContainer cs true c with
+      | none => exact ⟨none, none, by xsS [hL0, hc], by simp [containedFuel, cont, parentOf, hc]⟩
+      | some k =>
+        refine ⟨none, some (SI.comp k), by xsS [hL0, hc], ?_⟩
+        have hiff : (kr = k) ↔ (c = root) := by
+          constructor
+          · intro h; subst h
+            have h1 := (findContainer_spec hc).2.2
+            have h2 := (findContainer_spec hkr).2.2
+            omega
+          · intro h; subst h
+            rw [hkr] at hc; exact Option.some.inj hc
+        by_cases hcr : c = root
+        · simp [containedFuel, cont, parentOf, hc, hcr, hiff.mpr hcr, hkr]
+        · have : ¬ kr = k := fun h => hcr (hiff.mp h)
+          simp [containedFuel, cont, parentOf, hc, hcr, this]
+  rw [hnav] at hrun
+  rw [hmodel]
+  have h1 : ((L0.set "ep_pkg" (.inst (epk.map SI.pkg))).set "c_c" (.inst cco)) "ep_pkg" = .inst (epk.map SI.pkg) := by simp [Loc.set]
+  have h2 : ((L0.set "ep_pkg" (.inst (epk.map SI.pkg))).set "c_c" (.inst cco)) "c_c" = .inst cco := by simp [Loc.set]
+  have h3 : ((L0.set "ep_pkg" (.inst (epk.map SI.pkg))).set "c_c" (.inst cco)) "root" = .inst (some (SI.comp kr)) := by
+    simp [Loc.set, hR]
+  rcases cicIf_sound cs rf root kr cf f fuel hs _ cco _ C h1 h2 h3 with ⟨e, he⟩ | ⟨he, hB⟩ | ⟨he, hB⟩
+  · rw [he] at hrun; simp [thenStep, retOf] at hrun
+  · rw [he] at hrun
+    simp [thenStep, retOf, iStmts] at hrun
+    rw [hB]; simp [hrun]
+  · rw [he] at hrun
+    simp only [thenStep, iStmts] at hrun
+    obtain ⟨hv, hC⟩ := cicTail_sound cs rf root kr cf f fuel hs epk _ C h1 h3 v C' hrun
+    subst hC
+    rw [hB, hv]
+    cases epk <;> simp
+
+
+/-- whenever `is_contained_in(x, root)` returns at recursion depth f (x None, a PE_PE, an EP_PKG or a C_C; root the C_C with id
+    `root`), it returns `containedFuel cs rf root f` of the Parent x stands for (False for None) and defines nothing -/
+theorem contained_sound_interp (cs : List Container) (rf : List PkgRef) (root : Nat) (kr : Container)
+    (hkr : findContainer cs true root = some kr) : ∀ f, SoundF cs rf root kr (callAt (scopeWorld cs rf) defs f) f := by
+  intro f
+  induction f with
+  | zero => intro xo Lc C v C' h; simp [callAt] at h
+  | succ f ih =>
+    intro xo Lc C v C' h
+    rw [callAt_def _ _ f _ _ _ _ _ rfl lookup_is_contained_in rfl] at h
+    cases xo with
+    | none =>
+      xsS [is_contained_in] at h
+      simp [cont, parentOf, ← h.1, h.2]
+    | some x =>
+      cases x with
+      | pe q =>
+        have := cic_key cs rf root kr hkr _ f f ih q
+          ((Loc.empty.set "pe_pe" (.inst (some (SI.pe q)))).set "root" (.inst (some (SI.comp kr)))) C v C'
+          (by simp [Loc.set]) (by simp [Loc.set]) (by xsS [is_contained_in] at h ⊢; exact h)
+        simpa [cont, parentOf] using this
+      | pkg k =>
+        have := cic_key cs rf root kr hkr _ f f ih k.parent
+          (((Loc.empty.set "pe_pe" (.inst (some (SI.pkg k)))).set "root" (.inst (some (SI.comp kr)))).set "pe_pe"
+            (.inst (some (SI.pe k.parent)))) C v C'
+          (by simp [Loc.set]) (by simp [Loc.set]) (by xsS [is_contained_in] at h ⊢; exact h)
+        simpa [cont, parentOf] using this
+      | comp k =>
+        have := cic_key cs rf root kr hkr _ f f ih k.parent
+          (((Loc.empty.set "pe_pe" (.inst (some (SI.comp k)))).set "root" (.inst (some (SI.comp kr)))).set "pe_pe"
+            (.inst (some (SI.pe k.parent)))) C v C'
+          (by simp [Loc.set]) (by simp [Loc.set]) (by xsS [is_contained_in] at h ⊢; exact h)
+        simpa [cont, parentOf] using this
+
 end Pyx.XShape
